@@ -421,9 +421,12 @@ def check_gate(run, m, expect_K=None):
     # intrinsic minimum
     n_name = m.accumulators()[n_id]['name']
     adds = [u for u in m.accumulators()[n_id]['updates'] if u.block == 'add']
+    own_updates = [u.node for u in m.accumulators()[n_id]['updates']]
     for e, parents in walk_with_parents(m.body):
         if e.get('k') == 'Binary' and e['op'] == 'Sub' and e.get('ty') == 'usize':
             a, b = peel(e['ch'][0]), peel(e['ch'][1])
+            if any(p_ is un for p_ in parents for un in own_updates):
+                continue          # `n = n - 1` is the count's own remove update (ACC.pair)
             if a.get('res') == 'local' and a.get('local') == n_id and b.get('k') == 'Lit':
                 j = int(b['v'])
                 gated = False
@@ -463,16 +466,42 @@ def check_gate(run, m, expect_K=None):
 # ------------------------------------------------------------------ SIB plain <-> valid
 
 def kernel_signature(m):
-    """Normal-form summary of a remove/add kernel with null guards erased: accumulator name ->
-    (add delta, remove delta), gate (K, clamp), and the non-null result leaves as polynomials."""
+    """Normal-form summary of a remove/add kernel with null guards erased and accumulator
+    names replaced by what they accumulate: canonical accumulator -> (add delta, remove delta),
+    gate (K, clamp), and the non-null result leaves as polynomials over canonical names."""
     from algebra import norm as _norm
     m.classify()
-    accs = {}
+    raw = {}
     for a in m.accumulators().values():
         adds = [u for u in a['updates'] if u.block == 'add']
         rms = [u for u in a['updates'] if u.block == 'remove']
-        accs[a['name']] = (tuple(sorted(u.poly.show() for u in adds)),
-                           tuple(sorted(u.poly.show() for u in rms)))
+        raw[a['name']] = (adds, rms)
+    names = set(raw)
+
+    def is_state(x):
+        return isinstance(x, tuple) and len(x) == 2 and x[0] == 'sym' and x[1] in names
+    canon = {}
+    # pass 1: accumulators whose add delta is a function of the element only
+    for nm, (adds, rms) in raw.items():
+        if len(adds) == 1 and adds[0].op == 'AddAssign' and not adds[0].poly.mentions(is_state):
+            d = adds[0].poly.show()
+            canon[nm] = 'count' if d == '1' else 'Σ[%s]' % d
+
+    def ren(p):
+        return p.subst(lambda x: ('sym', canon.get(x[1], x[1])) if x[0] == 'sym' else x)
+    # pass 2: state-dependent deltas (linear weights, exponential), named after their add delta
+    for nm, (adds, rms) in raw.items():
+        if nm not in canon and len(adds) == 1 and adds[0].op == 'AddAssign':
+            tmp = dict(canon)
+            tmp[nm] = 'SELF'
+            d = adds[0].poly.subst(lambda x: ('sym', tmp.get(x[1], x[1])) if x[0] == 'sym' else x)
+            canon[nm] = 'Σ[%s]' % d.show()
+    for nm in raw:
+        canon.setdefault(nm, nm)
+    accs = {}
+    for nm, (adds, rms) in raw.items():
+        accs[canon[nm]] = (tuple(sorted(ren(u.poly).show() for u in adds)),
+                           tuple(sorted(ren(u.poly).show() for u in rms)))
     gf = gate_form(m)
     n_id = count_acc(m)
     leaves = []
@@ -481,7 +510,7 @@ def kernel_signature(m):
             if is_null_literal(e):
                 continue
             env = _env_at(m, e)
-            leaves.append(_norm(e, env).show())
+            leaves.append(ren(_norm(e, env)).show())
     return {'accs': accs, 'K': gf['K'] if gf else None, 'clamp': gf['clamp'] if gf else None,
             'leaves': sorted(leaves)}
 
